@@ -650,7 +650,7 @@ func c11Relax(p *Prog, r *Report) {
 		r.Check(okB, "D3-right-base", fmt.Sprintf("%s:base#%d", site, i), p.Pos(lc.diff.Pos()), "base is vers[i] for the index witnessed by MatchVersion (or an already level-checked candidate)", "the level check measures from "+why+", which is not the version witnessed to satisfy the current requirement (nor an already level-checked step): the upgrade level is applied relative to the wrong base version")
 		// candidate side of the first check: recorded on MatchVersion-false paths
 		tc := cellOf(lc.to)
-		if tc.idx != nil && !isInductionAbove(tc.idx) {
+		if tc.idx != nil && !isInductionAbove(tc.idx) && !isTailScan(tc) {
 			r.Check(recordedAbove(tc.idx, lc.diff.Block()), "D3-right-base", fmt.Sprintf("%s:next#%d", site, i), p.Pos(lc.diff.Pos()), "the candidate index was recorded while scanning down over versions that do not satisfy the requirement", "the candidate of the level check is not an index recorded on the MatchVersion-false part of the downward scan: it may lie at or below the current version")
 		}
 	}
@@ -724,6 +724,28 @@ func c11Relax(p *Prog, r *Report) {
 		}
 		r.Check(okG, "D4-plumbing", psite+":only-when-ok", p.Pos(c.Pos()), "patched only when Relax reported success", "relax.patchVulns patches the requirement even when Relax refused (returned false)")
 	})
+}
+
+// isTailScan: the cell is the current element of a full scan over xs[k+1:] — the range form of a
+// counter that starts one above another index and increases.
+func isTailScan(c cell) bool {
+	if c.idx == nil || !isLoopCursor(c.idx) {
+		return false
+	}
+	root := c.root
+	if u, ok := root.(*ssa.UnOp); ok && u.Op == token.MUL {
+		root = u.X
+	}
+	sl, ok := root.(*ssa.Slice)
+	if !ok || sl.Low == nil || sl.High != nil {
+		return false
+	}
+	bo, ok := sl.Low.(*ssa.BinOp)
+	if !ok || bo.Op != token.ADD {
+		return false
+	}
+	n, isC := constInt(bo.Y)
+	return isC && n == 1
 }
 
 // isInductionAbove: idx is a loop counter that starts one above another index and increases.
